@@ -4,6 +4,7 @@ import (
 	"strconv"
 	"strings"
 
+	"github.com/Ptt-official-app/go-pttbbs/cache"
 	"github.com/Ptt-official-app/go-pttbbs/ptttype"
 	"github.com/Ptt-official-app/go-pttbbs/types"
 )
@@ -32,6 +33,28 @@ func ToBBoardID(bid ptttype.Bid, boardIDRaw *ptttype.BoardID_t) BBoardID {
 //
 // BBoardID is possible coming from outside, requiring validation.
 func (b BBoardID) ToRaw() (bid ptttype.Bid, boardIDRaw *ptttype.BoardID_t, err error) {
+	bid, boardIDRaw, err = b.parse()
+	if err != nil {
+		return 0, nil, err
+	}
+
+	// the name must be the name of that bid: permissions are checked by bid,
+	// files are addressed by name.
+	if cache.Shm != nil {
+		board, err := cache.GetBCache(bid)
+		if err != nil {
+			return 0, nil, ErrInvalidBBoardID
+		}
+		if types.Cstrcmp(board.Brdname[:], boardIDRaw[:]) != 0 {
+			return 0, nil, ErrInvalidBBoardID
+		}
+	}
+
+	return bid, boardIDRaw, nil
+}
+
+// parse splits the text into bid and board name, without consulting the board table.
+func (b BBoardID) parse() (bid ptttype.Bid, boardIDRaw *ptttype.BoardID_t, err error) {
 	bList := strings.Split(string(b), "_")
 	if len(bList) < 2 {
 		return 0, nil, ErrInvalidBBoardID
@@ -61,6 +84,9 @@ func (b BBoardID) ToRaw() (bid ptttype.Bid, boardIDRaw *ptttype.BoardID_t, err e
 }
 
 func (b BBoardID) ToBrdname() string {
-	_, boardIDRaw, _ := b.ToRaw()
+	_, boardIDRaw, err := b.parse()
+	if err != nil {
+		return ""
+	}
 	return types.CstrToString(boardIDRaw[:])
 }
